@@ -62,6 +62,8 @@ class _ShapeOps:
 
     # -- values
     def awaited(self, v, env):
+        if isinstance(v, tuple) and len(v) == 2 and v[0] == "@coro":
+            return v[1]  # a private coroutine helper of the library: what it returned
         return UNKNOWN if v is UNKNOWN else ("val", v)
 
     def _resolved(self, func_node) -> str:
@@ -165,7 +167,7 @@ class _ShapeOps:
 
 def _run(ctx, u, scenario, env):
     ops = _ShapeOps(ctx, u.module, scenario)
-    return Machine(cfg_of(u), ops, resolver=make_resolver(ctx, u, ops)).run(env)
+    return Machine(cfg_of(u), ops, resolver=make_resolver(ctx, u, ops, coroutines=True)).run(env)
 
 
 def r19_1(ctx) -> None:
